@@ -590,6 +590,11 @@ def run_obligation(prop, ob_dict, known):
                     inputs = pt if pt is not None else model_inputs(eng, ctx, model)
                     rep = _RUNNER.run(prop, ob.scenario, ob.params, inputs)
                     failed = [c for c, _ in rep['failed']]
+                    if clause == 'finite' and rep['status'] == 'ok' and clause not in failed and failed:
+                        # the engine met a non-finite value (division by zero, NaN weight, ...); in floats the run goes on
+                        # with inf/nan and fails whichever clause notices it: that IS the reproduction
+                        record_clause = failed[0]
+                        failed = failed + ['finite']
                     if not (rep['status'] == 'ok' and clause in failed) and pt is not None:
                         # the cheap point did not reproduce: fall back to the full query
                         r2_, model = eng.query(neg)
